@@ -8,7 +8,7 @@ from api import shorten
 import C09
 
 EXPLANATION = (
-    "GUARD rules over hickory-net's verify_nsec (feature-full build): each of the 4 Secure yields carries its RFC premise set "
+    "GUARD rules over hickory-net's verify_nsec (feature-full build): each of the 5 Secure yields carries its RFC premise set "
     "(direct match NODATA: owner == qname, qtype and CNAME bits clear, NOERROR, no answers, and not an ancestor-delegation NSEC "
     "unless qtype is DS; NXDOMAIN: covering NSEC for qname and for the wildcard at the closest encloser, NXDOMAIN, no answers; "
     "wildcard expansion: wildcard name covered, NOERROR, answers present, no closer matches, qname covered; wildcard NODATA: NSEC "
@@ -16,7 +16,14 @@ EXPLANATION = (
     "returns true only under owner < name and (name < next or next == SOA owner) in Name's canonical order; (G3) "
     "no_closer_matches returns true only under its four containment tests and with every intermediate wildcard covered; (S1) "
     "only NSECs whose owner has a Secure record reach verify_nsec; SOA name must enclose qname; (P1) wildcard RRSIG answers "
-    "without NSEC/NSEC3 are Bogus.")
+    "without NSEC/NSEC3 are Bogus.  After F28-F35: the fifth Secure origin is the empty non-terminal NODATA (covering NSEC whose next name is "
+    "strictly below the name); a wildcard expansion needs qname covered and nsec_closest_encloser(qname, covering NSEC) == parent of the "
+    "wildcard named by a Secure RRSIG (replacing 'wildcard name covered + no closer matches' for that arm); the cover closure is exactly "
+    "owner < name && (name < next || next == SOA owner || (next <= owner && next encloses name)) && !(name below owner && (NS without SOA || "
+    "DNAME)); S1 is now 'the NSEC record itself is Secure'; (A1) NSEC/NSEC3 RRsets whose RRSIG labels differ from the owner's label count "
+    "never reach verification; (B1) the type bit map decoder inserts every set bit as (window << 8) | index; (S2) server side: nsec_records "
+    "attaches closest_nsec(qname) and closest_nsec(closest encloser), the closest encloser found by walking up while the ancestor is in the "
+    "zone, is not the apex and does not exist.")
 NOT_DECIDED = ("Logical entailment over all zones and NSEC subsets, and completeness against the server's proof selection - "
                "relations over runtime values; the guard sets are the RFCs' stated premises.")
 ASSUMPTIONS = ["FULL feature configuration (dnssec-ring)", "Name's Ord is RFC 4034 6.1 canonical order (C04)"]
